@@ -344,6 +344,20 @@ fn gen_unary(rng: &mut Rng) -> String {
                 Geometry::MultiPolygon(m.orient(d))
             })
             .collect();
+        // empty members (an empty MultiPolygon, or one whose first polygon is empty) at any
+        // position, the front included: the fill rule must come from the first ring that has a winding
+        let mut gs = gs;
+        if rng.chance(1, 4) {
+            let e = if rng.chance(1, 2) {
+                Geometry::MultiPolygon(MultiPolygon(vec![]))
+            } else {
+                let mut m = match &gs[0] { Geometry::MultiPolygon(m) => m.clone(), _ => MultiPolygon(vec![]) };
+                m.0.insert(0, Polygon::new(LineString(vec![]), vec![]));
+                Geometry::MultiPolygon(m)
+            };
+            let at = if rng.chance(2, 3) { 0 } else { rng.below(gs.len() as u64 + 1) as usize };
+            gs.insert(at, e);
+        }
         let (u, gs) = place(rng, gs);
         let mut s = format!("C04.unary {} {}", proto::num(u), gs.len());
         for g in &gs {
@@ -374,7 +388,12 @@ fn gen_unary(rng: &mut Rng) -> String {
         let d = if rng.chance(1, 2) { Direction::Default } else { Direction::Reversed };
         ps = ps.iter().map(|p| p.orient(d)).collect();
     }
-    let ps: Vec<Polygon<f64>> = ps.iter().map(|p| if rng.chance(1, 5) { repeat_poly(rng, p) } else { p.clone() }).collect();
+    let mut ps: Vec<Polygon<f64>> = ps.iter().map(|p| if rng.chance(1, 5) { repeat_poly(rng, p) } else { p.clone() }).collect();
+    // an empty polygon (no ring, so no winding) at the front or elsewhere
+    if rng.chance(1, 5) {
+        let at = if rng.chance(2, 3) { 0 } else { rng.below(ps.len() as u64 + 1) as usize };
+        ps.insert(at, Polygon::new(LineString(vec![]), vec![]));
+    }
     let gs: Vec<Geometry<f64>> = ps.into_iter().map(Geometry::Polygon).collect();
     let (u, gs) = place(rng, gs);
     let mut s = format!("C04.unary {} {}", proto::num(u), gs.len());
